@@ -115,3 +115,25 @@ Definition c16_model (mode : host_mode) (host path lb lk : bytes) (rb rk : list 
 Definition c16_spec (lb lk : bytes) (same : bool) (rb rk : list bytes) : list bytes :=
   expect same "answer-differs-from-path-style" ++
   expect (forallb (beq lb) rb) "wrong-bucket-addressed" ++ expect (forallb (beq lk) rk) "wrong-key-addressed".
+
+(* C10 frame oracle (model-free): snapshots are lists (label, value); an operation addressed to
+   (bucket, key) may only change entries whose label is in [allowed]; a refused operation may
+   change nothing *)
+Fixpoint snap_get (l : bytes) (s : list (bytes * bytes)) : option bytes :=
+  match s with [] => None | (l', v) :: s' => if beq l l' then Some v else snap_get l s' end.
+
+Definition opt_beq (a b : option bytes) : bool :=
+  match a, b with Some x, Some y => beq x y | None, None => true | _, _ => false end.
+
+Definition changed_labels (before after : list (bytes * bytes)) : list bytes :=
+  filter (fun l => negb (opt_beq (snap_get l before) (snap_get l after)))
+         (map fst before ++ filter (fun l => match snap_get l before with None => true | Some _ => false end) (map fst after)).
+
+Definition frame_check (allowed_prefixes : list bytes) (refused : bool) (before after : list (bytes * bytes))
+  : list bytes :=
+  let ch := changed_labels before after in
+  let bad := filter (fun l => refused || negb (existsb (fun p => prefixb p l) allowed_prefixes)) ch in
+  match bad with
+  | [] => []
+  | l :: _ => [B "changed-outside-addressed:" ++ l]
+  end.
